@@ -9,7 +9,7 @@ Expression descriptors (pure data, used by the independent pull-model oracle):
 """
 import copy
 
-ALL_LOCS = ["a", "b", "c", "n.x", "n.y", "n.z", "l0", "l1"]
+ALL_LOCS = ["a", "b", "c", "n.x", "n.y", "n.z", "l0", "l1", "K-1", "K-2"]
 
 
 class Obj:
@@ -40,10 +40,16 @@ class FContainer:
     def __init__(self, g):
         self.g = g
 
+    @staticmethod
+    def pair(x):
+        return [x, x + 1]
+
 
 def container_of(loc):
     if loc.startswith("n."):
         return "n"
+    if loc.startswith("K-"):
+        return "K"
     if loc.startswith("l") and len(loc) == 2 and loc[1].isdigit():
         return "l"
     return None
@@ -54,20 +60,31 @@ def make_contents(ex, locs=ALL_LOCS, prefix="i"):
     v = {L: ex.int(f"{prefix}_{L}") for L in ALL_LOCS}
     d = {"a": v["a"], "b": v["b"], "c": v["c"],
          "n": Obj(x=v["n.x"], y=v["n.y"], z=v["n.z"]),
-         "l": [v["l0"], v["l1"]]}
+         "l": [v["l0"], v["l1"]],
+         "__K": {-1: v["K-1"], -2: v["K-2"]}}    # registered as its own top-level container 'K'; hash(-1) == hash(-2)
     return d
+
+
+def copy_contents(d):
+    """independent containers holding the same (symbolic) values"""
+    return {"a": d["a"], "b": d["b"], "c": d["c"], "n": Obj(x=d["n"].x, y=d["n"].y, z=d["n"].z),
+            "l": list(d["l"]), "__K": dict(d["__K"])}
 
 
 def getval(d, L):
     if L.startswith("n."):
         return getattr(d["n"], L[2:])
+    if L.startswith("K-"):
+        return d["__K"][int(L[1:])]
     if container_of(L) == "l":
         return d["l"][int(L[1])]
     return d[L]
 
 
 def setraw(d, L, v):
-    if L.startswith("n."):
+    if L.startswith("K-"):
+        d["__K"][int(L[1:])] = v
+    elif L.startswith("n."):
         setattr(d["n"], L[2:], v)
     elif container_of(L) == "l":
         d["l"][int(L[1])] = v
@@ -75,7 +92,17 @@ def setraw(d, L, v):
         d[L] = v
 
 
+def kref(r):
+    """top-level container 'K' (dict with the hash-colliding keys -1 / -2) of r's manager; registered on demand"""
+    m = r._manager
+    if "K" not in m.containers:
+        m.ref(r._owner["__K"], "K")
+    return m.containers["K"]
+
+
 def getref(r, L):
+    if L.startswith("K-"):
+        return kref(r)[int(L[1:])]
     if L.startswith("n."):
         return getattr(r["n"], L[2:])
     if container_of(L) == "l":
@@ -85,7 +112,9 @@ def getref(r, L):
 
 def assign(r, L, value):
     """Assignment through the reference API, as a user writes it."""
-    if L.startswith("n."):
+    if L.startswith("K-"):
+        kref(r)[int(L[1:])] = value
+    elif L.startswith("n."):
         setattr(r["n"], L[2:], value)
     elif container_of(L) == "l":
         r["l"][int(L[1])] = value
@@ -109,6 +138,12 @@ def build(desc, r, fr):
     if k in ("floor", "ceil", "trunc"):
         import math
         return getattr(math, k)(build(desc[1], r, fr))
+    if k == "lidx":
+        return r["l"][build(desc[1], r, fr)]
+    if k == "mod":
+        return build(desc[1], r, fr) % build(desc[2], r, fr)
+    if k == "pair":
+        return fr.pair(build(desc[1], r, fr))
     if k == "inv":
         return ~build(desc[1], r, fr)
     if k == "pos":
@@ -143,6 +178,13 @@ def ev(desc, d, g):
     if k in ("floor", "ceil", "trunc"):
         import math
         return getattr(math, k)(ev(desc[1], d, g))
+    if k == "lidx":
+        return d["l"][ev(desc[1], d, g)]
+    if k == "mod":
+        return ev(desc[1], d, g) % ev(desc[2], d, g)
+    if k == "pair":
+        x = ev(desc[1], d, g)
+        return [x, x + 1]
     if k == "inv":
         return ~ev(desc[1], d, g)
     if k == "pos":
@@ -163,6 +205,9 @@ def ev(desc, d, g):
 
 def reads(desc, out=None):
     out = set() if out is None else out
+    if desc[0] == "lidx":
+        out.add("l0")
+        out.add("l1")
     if desc[0] == "loc":
         out.add(desc[1])
     elif desc[0] != "const":
@@ -223,6 +268,12 @@ def show(desc):
         return f"{k}({show(desc[1])})"
     if k == "round2":
         return f"round({show(desc[1])},{desc[2]})"
+    if k == "lidx":
+        return f"l[{show(desc[1])}]"
+    if k == "mod":
+        return f"({show(desc[1])} % {show(desc[2])})"
+    if k == "pair":
+        return f"pair({show(desc[1])})"
     if k == "pow":
         return f"({show(desc[1])} ** {show(desc[2])})"
     if k == "call":
